@@ -5,7 +5,7 @@ from ..core import AnalysisError, u, walk_local, enclosing_stmt
 from ..lib import (construct, std_facts, def_of, copy_kind, at_least, facts_at,
                    calls_of_node, stored_names, in_subtree, returns_of)
 from ..resolve import store_accesses
-from .common import hasheq, dunder_sweep
+from .common import hasheq, dunder_sweep, instance_state, finalize_conflict_guard
 
 SM = 'selector_map.SelectorMap'
 
@@ -233,6 +233,42 @@ def run(ctx):
   ctx.expect_at_least('SelectorMap methods that mutate the map', len([n for n in wr if n != '__init__']), 3)
   if not any(not o.ok and o.rule == 'C08.sync' for o in ctx.obs):
     ctx.expect_at_least('nested fields of SelectorMap (the suffix tree)', len(nested), 1)
+
+  # ---- C08.prune: a child link is removed from the tree only when the child is empty
+  pm = sm.methods.get('pop')
+  g, facts, is_alias, target = field_aliases(prog, pm, [f_ for f_ in fields if f_ in nested][0] if nested else fields[0])
+  removals = 0
+  for n in g.live_nodes():
+    if n.ast is None or n.kind != 'stmt':
+      continue
+    for x in ast.walk(n.ast):
+      base = key = None
+      if isinstance(x, ast.Call) and isinstance(x.func, ast.Attribute) and x.func.attr == 'pop' and x.args:
+        base, key = x.func.value, x.args[0]
+      elif isinstance(x, ast.Subscript) and isinstance(x.ctx, ast.Del):
+        base, key = x.value, x.slice
+      if base is None:
+        continue
+      root = base
+      while isinstance(root, ast.Subscript):
+        root = root.value
+      if not (u(root) == target or (isinstance(root, ast.Name) and is_alias(n, root.id))):
+        continue
+      if isinstance(key, ast.Name) and key.id.isupper():
+        continue   # the terminal marker itself
+      removals += 1
+      child = '%s[%s]' % (u(base), u(key))
+      empty = ('c', child, False) in facts[n.id] or ('c', 'len(%s) == 0' % child, True) in facts[n.id]
+      ctx.check(empty, 'C08.prune', smc + '.pop',
+                'link `%s` is removed only when the child node is empty' % child,
+                'pop removes the link `%s` without checking that the child node is empty: popping a name that is a dotted suffix of '
+                'another stored name detaches the longer name\'s subtree, which then no longer matches by suffix (and minimal_selector / pop on it fail)'
+                % child, pm.loc(n.ast), instance='prune:' + child)
+  if removals == 0:
+    ctx.note('SelectorMap.pop removes no interior link (no pruning)')
+
+  instance_state(ctx, 'C08.sync', SM, set(fields), 'a third field must be kept in step with the tree and the map by every mutator')
+  finalize_conflict_guard(ctx, 'C08.hook-keys')
 
   # ---- C08.exact-first
   mt = sm.methods.get('matching_selectors')
